@@ -376,3 +376,26 @@ PROPS['C12'] = dict(
     level_note='Trusted: ThreadSanitizer (sees only accesses that executed), the stand-in implements the six runtime entry points g++ emits for these regions (static schedules are inlined by the compiler). Sequential orders do not explore sub-member interleavings; that half is TSan\'s.',
     assumptions=['parallel regions contain no barriers/critical sections (true for this library: only "parallel for")', 'team sizes <= 64'],
 )
+
+_PTXGEN = [['python3', '{ROOT}/engine/ptx2cpp.py', '{SRC}/gl64_t.cuh', '{SRC}/ntt_goldilocks.cuh', '{OUT}']]
+for _n, _f in (('h_gl64_700', '-D__CUDA_ARCH__=700'), ('h_gl64_600', '-D__CUDA_ARCH__=600'),
+               ('h_gl64_700p', '-D__CUDA_ARCH__=700 -DGL64_PARTIALLY_REDUCED'), ('h_gl64_600p', '-D__CUDA_ARCH__=600 -DGL64_PARTIALLY_REDUCED')):
+    HARNESSES[_n] = dict(src='h_gl64.cpp', cflags=_f + ' -Wno-parentheses', pregen=_PTXGEN, exe_alias=_n)
+
+PROPS['C20'] = dict(
+    title='GPU field arithmetic and tables implement the same field as the CPU',
+    level='other',
+    jobs=[J(h, 'fast2', 3_000_000, 300_000_000, only='c20.op', wq=4, wt=8, class_prefix=h[7:] + ':') for h in ('h_gl64_700', 'h_gl64_600', 'h_gl64_700p', 'h_gl64_600p')] +
+         [J('h_gl64_700', 'fast2', 1, 1, only='c20.tables', wq=1, wt=1, args=['--enumerate'], tag='tables', class_prefix='tables:')],
+    rule='No GPU and no nvcc exist here: the SOURCE TEXT of gl64_t.cuh is executed under a semantic model. engine/ptx2cpp.py rewrites every asm("...") statement into host C++ over a 22-instruction PTX subset table (engine/ptx_sem.hpp; carry flag = poisoned value that traps when read before written); '
+         'operators, to()/from() and reduce are compiled unchanged. Four builds: __CUDA_ARCH__ 700 and 600 x GL64_PARTIALLY_REDUCED off/on. rapidcheck generates (op, a, b) from the boundary / solved-operand pair generators (sum next to 2^64 and p, difference next to 0, product residue and high-word patterns): '
+         'ops + - unary- * sqr *uint32 and the final reduction (+=, -=, *=, cneg forms too); canonical inputs for the fully reduced build except multiplicands (documented tolerance), any 64-bit values for the partially reduced one. Oracle: u128 reference, result must be the canonical value. '
+         'Tables: all 3 x 33 rows of omegas, omegas_inv, domain_size_inverse parsed from ntt_goldilocks.cuh and compared with Goldilocks::w(i), its inverse (product = 1) and (2^i)^-1, plus primitivity of each root -- that part is an exhaustive enumeration. '
+         'Non-trivial: every generated case (classified canonical / partially reduced operands). distinct = distinct (configuration, op, a, b).',
+    expected_classes=['700:gl64:canonical-operands', '600:gl64:canonical-operands', '700p:gl64:partially-reduced-operand', '600p:gl64:partially-reduced-operand', 'tables:table-row', '700:a*b', '600:a*(uint32)b', '700p:final-reduction'],
+    technique='property-based testing of the CUDA source executed under a PTX-subset semantic model (source-to-host translation), u128 oracle; exhaustive table comparison',
+    level_text='Level "other": what is executed is a model of PTX semantics applied to the real source text, not the GPU. Within that model, millions of boundary-directed operand pairs per configuration are checked against the exact field result, and the device tables are compared row by row (exhaustively) with the CPU table.',
+    level_note='Trusted base: the PTX subset table (22 instructions, carry-flag model) and the translator; nvcc code generation and the hardware are not covered. An instruction outside the subset stops the translator (build error = no verdict). operator>>= (malformed asm operand list), dot_product, reciprocal, heptaroot are outside the property and not asserted.',
+    assumptions=['PTX semantics as modelled in engine/ptx_sem.hpp', 'fully reduced configuration receives canonical operands (except multiplicands)'],
+    explanation='Executes gl64_t.cuh source text under a PTX-subset model in 4 configurations; exhaustive comparison of 99 device table rows with the CPU tables.',
+)
